@@ -3731,3 +3731,165 @@ func workerErrorPerJob(c *Ctx, rule string) {
 	}
 	c.AtLeast(rule, "job completions in the worker loop", n, 1)
 }
+
+// lockDecisionRecords (C03, C16): prepareUpload withholds a pointer whose path another user has locked. The push
+// then has to fail, and it fails because the lookup that made the decision — lockVerifier.LockedByThem — also
+// records the lock for ReportErrors. A side-effect-free lookup (Contains) withholds the object silently: the push
+// exits 0 without it.
+func lockDecisionRecords(c *Ctx, rule string) {
+	p := c.P
+	fn := p.Fn("commands", "(*uploadContext).prepareUpload")
+	if fn == nil {
+		c.Missing(rule, "(*commands.uploadContext).prepareUpload", "not found")
+		return
+	}
+	n, recording := 0, 0
+	for _, f := range WithAnon(fn) {
+		for _, b := range f.Blocks {
+			for _, in := range b.Instrs {
+				cc := AsCall(in)
+				if cc == nil || !strings.HasPrefix(CalleeName(cc), "(*commands.lockVerifier).") {
+					continue
+				}
+				n++
+				name := strings.TrimPrefix(CalleeName(cc), "(*commands.lockVerifier).")
+				if name == "LockedByThem" {
+					recording++
+				}
+				c.Check(nameIn(name, []string{"LockedByThem", "LockedByUs", "Enabled"}), rule, "prepareUpload:lock-lookup:"+name, p.InstrPos(in), "locks are consulted through the recording lookups",
+					"prepareUpload consults the lock verifier through "+name+", which records nothing: a pointer withheld because of another user's lock is not reported, and the push exits 0 without the object on the server")
+			}
+		}
+	}
+	c.Check(recording > 0, rule, "prepareUpload:locked-by-them-recorded", p.Pos(fn.Pos()), "the lock decision is taken by LockedByThem", "prepareUpload never calls lockVerifier.LockedByThem: locks held by others are not recorded for the final report")
+	c.AtLeast(rule, "lock verifier calls in prepareUpload", n, 2)
+}
+
+// objectIDPushNeedsLocalObject (C03): `git lfs push --object-id` builds its pointers from the files in the local
+// store. An object that is not there cannot be uploaded, and a pointer of size 0 is silently dropped further down;
+// the failure to stat the local object therefore ends the command (every error of that Stat, not-exist included).
+func objectIDPushNeedsLocalObject(c *Ctx, rule string) {
+	p := c.P
+	fn := p.Fn("commands", "uploadsWithObjectIDs")
+	if fn == nil {
+		c.Missing(rule, "commands.uploadsWithObjectIDs", "not found")
+		return
+	}
+	n := 0
+	for _, ci := range CallsIn(fn, "os.Stat", "os.Lstat") {
+		st, ok := ci.(*ssa.Call)
+		if !ok {
+			continue
+		}
+		n++
+		// from the err != nil edge no pointer is built: every path ends in a no-return call
+		fail := PassEdges(fn, func(cond ssa.Value) (bool, bool) {
+			if e, trueMeansNil, ok := IsErrNilCheck(cond); ok && ResultOfCall(e, st, 1) {
+				return !trueMeansNil, true
+			}
+			return false, false
+		})
+		good := nonVacuous(fail)
+		for _, e := range fail {
+			for _, b := range fn.Blocks {
+				for _, in := range b.Instrs {
+					if cc := AsCall(in); cc != nil && nameIn(CalleeName(cc), []string{"(*commands.uploadContext).UploadPointers", "commands.uploadPointers"}) {
+						if InstrReachable(e.To(), in, nil, noReturnCommands) {
+							good = false
+						}
+					}
+				}
+			}
+		}
+		c.Check(good, rule, "push-object-id:missing-local-object-is-fatal", p.InstrPos(st), "when the local object cannot be examined the command ends",
+			"`git lfs push --object-id` goes on after it could not stat the local object: the pointer gets size 0, is dropped as empty, and the command exits 0 although the object is neither local nor on the server")
+	}
+	c.AtLeast(rule, "stat calls in uploadsWithObjectIDs", n, 1)
+}
+
+// lsTreePathIsRemainder (C04): `git ls-tree -z` prints "<mode> <type> <oid> <size>\t<path>" with the path verbatim,
+// TABs included. The scanner takes everything after the FIRST tab as the path: the line is cut in two (SplitN with
+// 2, or Cut), never split at every tab.
+func lsTreePathIsRemainder(c *Ctx, rule string) {
+	p := c.P
+	fn := p.Fn("git", "(*LsTreeScanner).next")
+	if fn == nil {
+		c.Missing(rule, "(*git.LsTreeScanner).next", "not found")
+		return
+	}
+	n := 0
+	for _, ci := range CallsIn(fn, "strings.Split", "strings.SplitN", "strings.Fields", "strings.FieldsFunc", "strings.Cut", "strings.SplitAfterN", "strings.SplitAfter") {
+		a := CallArgs(ci.Common())
+		if len(a) < 2 {
+			continue
+		}
+		sep, ok := ConstString(a[1])
+		if !ok || sep != "\t" {
+			continue
+		}
+		n++
+		good := false
+		switch CalleeName(ci.Common()) {
+		case "strings.SplitN":
+			if k, ok := ConstInt(a[2]); ok && k == 2 {
+				good = true
+			}
+		case "strings.Cut":
+			good = true
+		}
+		c.Check(good, rule, "ls-tree:path-is-everything-after-first-tab", p.InstrPos(ci), "the record is cut at the first tab only",
+			"the ls-tree record is split at every tab: a path containing a TAB is truncated, pull/checkout write the object to a stray path and leave the real file a pointer")
+	}
+	c.AtLeast(rule, "tab splits in LsTreeScanner.next", n, 1)
+}
+
+// smudgeFailureLeavesPointer (C04, C08): when the content of a pointer cannot be produced (download failed and
+// errors are being skipped), the non-delayed smudge writes the pointer text itself — on every path that returns
+// after the failed Smudge, not only for one kind of error — so the file stays a valid pointer instead of
+// becoming empty.
+func smudgeFailureLeavesPointer(c *Ctx, rule string) {
+	p := c.P
+	fn := p.Fn("commands", "smudge")
+	if fn == nil {
+		c.Missing(rule, "commands.smudge", "not found")
+		return
+	}
+	var out *ssa.Parameter
+	for _, q := range fn.Params {
+		if short(q.Type().String()) == "io.Writer" {
+			out = q
+		}
+	}
+	n := 0
+	for _, ci := range CallsIn(fn, "(*lfs.GitFilter).Smudge") {
+		sm, ok := ci.(*ssa.Call)
+		if !ok || out == nil {
+			continue
+		}
+		n++
+		fail := PassEdges(fn, func(cond ssa.Value) (bool, bool) {
+			if e, trueMeansNil, ok := IsErrNilCheck(cond); ok && ResultOfCall(e, sm, 1) {
+				return !trueMeansNil, true
+			}
+			return false, false
+		})
+		good, where := nonVacuous(fail), ""
+		for _, e := range fail {
+			for _, ex := range RunCount(CountQuery{Fn: fn, Entry: e.To(), NoRet: noReturnCommands, Event: func(in ssa.Instruction) CSet {
+				if sc := AsCall(in); sc != nil && CalleeName(sc) == "(*lfs.Pointer).Encode" {
+					if a := CallArgs(sc); len(a) > 1 && SameVar(a[1], out) {
+						return C1
+					}
+				}
+				return 0
+			}}) {
+				if ex.Kind == "return" && ex.Set&C0 != 0 {
+					good, where = false, ex.Desc(p)
+				}
+			}
+		}
+		c.Check(good, rule, "smudge:failed-content-leaves-pointer", p.InstrPos(sm), "after a failed Smudge the pointer text is written before returning",
+			"smudge can return after a failed Smudge without writing the pointer text ("+where+"): with download errors skipped the filter reports success with empty output and the working-tree file becomes empty instead of staying a pointer")
+	}
+	c.AtLeast(rule, "Smudge calls in commands.smudge", n, 1)
+}
